@@ -73,8 +73,11 @@ structure Flags where
   version : Bool := false
   out : String                   -- -out, default: the working directory
   name : String := ""
-  file : Option String := none   -- first argument not starting with '-'
+  args : List String := []       -- what the flag set leaves over: everything from the first argument that is not a flag
   deriving DecidableEq, Repr
+
+/-- `Command.Run`: the input file is the first remaining argument not starting with '-' -/
+def Flags.file (fl : Flags) : Option String := fl.args.find? (fun a => !a.startsWith "-")
 
 structure Result where
   fs : FS
@@ -126,6 +129,8 @@ def run (fl : Flags) (fs : FS) (input : InputState) (sr : SpecResult) (idValid :
   else match fl.file with
     | none => ⟨fs, 1, false, true⟩
     | some _ =>
+      -- arguments besides the input file (flags written after it, a second file) are an error, not ignored
+      if 1 < fl.args.length then ⟨fs, 1, false, true⟩ else
       match input with
       | .readable =>
         if !sr.parseOk then ⟨fs, 1, false, true⟩
